@@ -308,6 +308,17 @@ class Made(View):
 
 
 @dataclass(eq=False)
+class MadeB(Made):
+    """an inferred instance whose own truth value depends on a field (`if instance:` is user business, not the library's)"""
+
+    def __bool__(self):
+        return bool(self.b)
+
+    def __repr__(self):
+        return f"MadeB({self.a!r},{self.b!r},{self.c!r})"
+
+
+@dataclass(eq=False)
 class Made2(View):
     a: Any = None
     b: Any = None
@@ -316,7 +327,7 @@ class Made2(View):
         return f"Made2({self.a!r},{self.b!r})"
 
 
-CLASSES = {c.__name__: c for c in (Item, Kid, Other, Base, Sub, USub, Leaf, Hand, Holder, View, Made, Made2, Part, Rev, VItem, Dflt,
+CLASSES = {c.__name__: c for c in (Item, Kid, Other, Base, Sub, USub, Leaf, Hand, Holder, View, Made, MadeB, Made2, Part, Rev, VItem, Dflt,
                                            Hand0)}
 
 
